@@ -404,7 +404,7 @@ func c31Run(rt *rapid.T) {
 	tr := vs.NewTrace()
 	qpProbes("accepted_exact", "must_accept_checked", "rejected_outside_validity", "rejected_mutation", "window_edge",
 		"clock_backwards", "cross_token_combination", "reset_tokens_checked", "mutated_token", "mutated_addr", "mutated_port",
-		"mutated_src", "mutated_dst", "other_key")
+		"mutated_src", "mutated_dst", "other_key", "reframed_src_addr_boundary")
 	extreme := vs.Config() == "parts-extreme"
 	if extreme {
 		qpProbes("extreme_clock_offset")
@@ -498,7 +498,30 @@ func c31Run(rt *rapid.T) {
 		p := rtPresent{key: is.key, token: is.token, src: is.src, dst: is.newDst, addr: is.addr}
 		desc := ""
 		for k := vs.Pick(c, 0, 1, 1, 2); k > 0; k-- {
-			switch c.Intn(7) {
+			switch c.Intn(8) {
+			case 7:
+				// "reframe": move bytes across the boundary between the source
+				// connection ID and the address, so that their plain concatenation
+				// stays the same (a v6 address splits into 12 more connection ID
+				// bytes and a v4 address, or the reverse): must still be rejected
+				a := p.addr.Addr()
+				switch {
+				case a.Is6() && !a.Is4In6() && len(p.src)+12 <= maxConnIDLen:
+					b := a.As16()
+					p.src = append(append([]byte(nil), p.src...), b[:12]...)
+					p.addr = netip.AddrPortFrom(netip.AddrFrom4([4]byte(b[12:])), p.addr.Port())
+					desc += " reframe6to4"
+					vs.G.Inc("probe.reframed_src_addr_boundary")
+				case a.Is4() && len(p.src) >= 12:
+					var b [16]byte
+					copy(b[:12], p.src[len(p.src)-12:])
+					b4 := a.As4()
+					copy(b[12:], b4[:])
+					p.src = append([]byte(nil), p.src[:len(p.src)-12]...)
+					p.addr = netip.AddrPortFrom(netip.AddrFrom16(b), p.addr.Port())
+					desc += " reframe4to6"
+					vs.G.Inc("probe.reframed_src_addr_boundary")
+				}
 			case 0:
 				p.token = mutBytes(p.token, other.token)
 				if vs.Pct(c, 20) && len(other.token) >= 4 && len(p.token) >= 4 {
